@@ -62,6 +62,10 @@ Verdict run(const Ctx & x, const Case & c)
     if (rb->storage() != st->storage()) {
         return std::string("the rebuilt field holds different stored values");
     }
+    std::unique_ptr<zoo::IStack> rb2 = st->rebuild_from_backend();
+    if (rb2->configs() != got || rb2->dump() != st->dump()) {
+        return std::string("a field built from (own configuration, the backend's owning data) differs from the original");
+    }
     const model::Layer & top = d.layers[0];
     for (const Words & xc : c.coords) {
         model::Eval ev{d, c.cfg, c.ext, c.data, {}, {}};
